@@ -42,6 +42,14 @@ NEEDS = {
     "C12b": "a send started re-entrantly (finalizer) from inside the transport write of another message: RLock lets the nested send write into the middle of the outer packet",
     "C15b": "a callback that registers another callback while callbacks run (or a late registration after a raising callback): callbacks run twice",
     "C17b": "ThreadPoolServer: a departing client's descriptor number is recycled by a newcomer between close and the (now late) poll unregistration",
+    "C04b": "a history: a float zero of one sign dumped earlier in the same process, then the zero of the other sign (lru_cache keyed by equality conflates 0.0 and -0.0; serializer becomes stateful)",
+    "C06b": "a restricted view built with an explicitly EMPTY write list and a peer writing one of the readable names (`wattrs or attrs`)",
+    "C07b": "a hand-crafted HANDLE_CMP request naming an arbitrary attribute of type(obj) as the operator (policy check dropped from the comparison handler)",
+    "C13b": "waiter fails the try-lock, receiver releases and notifies before the waiter enters Condition.wait (try-lock taken outside the condition mutex): lost wake-up",
+    "C14b": "three threads on one connection: two sleepers on the condition, the reply of the second-queued one arrives; notify() wakes only the first",
+    "C16b": "ThreadPoolServer: a client that resets (RST) its connection while still in the accept backlog or right after garbage: getpeername() raises outside the try block and kills the accept loop",
+    "C19b": "a short send() answer from the kernel (socket accepts fewer bytes than offered): return value ignored, bytes skipped",
+    "C20b": "upload of a file whose LAST chunk is a full chunk of NUL bytes (seek instead of write, no truncate): trailing zeros lost",
     "C18b": "register, advance the clock, re-register, advance: setdefault never refreshes the time stamp, live server pruned / wrong order",
 }
 
